@@ -58,7 +58,23 @@ func (c *Criteria) Validate() {
 
 func (c *Criteria) NotUsedName(name string) string {
 	count := c.countWithPrefix(name)
-	return firstFreeName(name, count)
+	candidate := firstFreeName(name, count)
+	// counting is not enough once a criterion with this prefix has been removed again
+	// (e.g. two concealed criteria, the first one omitted): skip names that are taken
+	for c.containsId(candidate) {
+		count++
+		candidate = firstFreeName(name, count)
+	}
+	return candidate
+}
+
+func (c *Criteria) containsId(id string) bool {
+	for _, cr := range *c {
+		if cr.Id == id {
+			return true
+		}
+	}
+	return false
 }
 
 func firstFreeName(name string, count int) string {
